@@ -46,8 +46,14 @@ namespace {
     if (c == "two") return T(2);
     if (c == "min") return L::lowest();
     if (c == "max") return L::max();
-    if (c == "minp1") return std::is_floating_point_v<T> ? std::nextafter(L::lowest(), T(0)) : static_cast<T>(L::lowest() + 1);
-    if (c == "maxm1") return std::is_floating_point_v<T> ? std::nextafter(L::max(), T(0)) : static_cast<T>(L::max() - 1);
+    // (no conditional operator here: its common type would be double and round 64-bit values)
+    if constexpr (std::is_floating_point_v<T>) {
+      if (c == "minp1") return std::nextafter(L::lowest(), T(0));
+      if (c == "maxm1") return std::nextafter(L::max(), T(0));
+    } else {
+      if (c == "minp1") return static_cast<T>(L::lowest() + 1);
+      if (c == "maxm1") return static_cast<T>(L::max() - 1);
+    }
     if constexpr (std::is_floating_point_v<T>) { return T(1024.5); }
     else { return static_cast<T>(T(1) << (sizeof(T) * 4)); }
   }
